@@ -4,7 +4,7 @@ cd "$(dirname "$0")/.."
 /venv/bin/python check.py --setup >/dev/null 2>&1
 for sd in ${SEEDS:-1 2 3 4 5}; do
   for p in $(python3 -c "import json;print(' '.join(c['property_id'] for c in json.load(open('MANIFEST.json'))['checks']))"); do
-    out=$(VERIF_SEED=$sd timeout ${TMO:-1800} /venv/bin/python check.py $p --tier ${TIER:-quick} 2>&1)
-    echo "seed=$sd $p $(date +%H:%M) exit=$? $(echo "$out" | grep -c VIOLATION) violations :: $(echo "$out" | grep -m2 'what:' | tr '\n' ' ')"
+    out=$(VERIF_SEED=$sd timeout ${TMO:-1800} /venv/bin/python check.py $p --tier ${TIER:-quick} 2>&1); rc=$?
+    echo "seed=$sd $p $(date +%H:%M) exit=$rc $(echo "$out" | grep -c VIOLATION) violations :: $(echo "$out" | grep -m2 'what:' | tr '\n' ' ')"
   done
 done
